@@ -100,7 +100,8 @@ def build_all(prop_module):
         res['driver_ok'] = ok_d
         if not ok_d:
             res['log'] += '\n--- driver build ---\n' + log_d
-        ok_p, log_p = lake_build(['PylxProofs.' + prop_module])
+        mods = prop_module if isinstance(prop_module, (list, tuple)) else [prop_module]
+        ok_p, log_p = lake_build(['PylxProofs.' + m for m in mods])
         res['proofs_ok'] = ok_p
         if not ok_p:
             res['log'] += '\n--- proof module build ---\n' + log_p
@@ -151,9 +152,11 @@ def audit(prop_module, theorems):
     """#print axioms for each theorem; returns {thm: [axioms] | None (missing)}"""
     d = os.path.join(LEAN, '.lake', 'audit')
     os.makedirs(d, exist_ok=True)
-    p = os.path.join(d, 'Audit_%s_%d.lean' % (prop_module, os.getpid()))
+    mods = prop_module if isinstance(prop_module, (list, tuple)) else [prop_module]
+    p = os.path.join(d, 'Audit_%s_%d.lean' % (mods[0], os.getpid()))
     with open(p, 'w') as f:
-        f.write('import PylxProofs.%s\n' % prop_module)
+        for m in mods:
+            f.write('import PylxProofs.%s\n' % m)
         for t in theorems:
             f.write('#print axioms %s\n' % t)
     rc, out = run(['lake', 'env', 'lean', p], cwd=LEAN, timeout=1800)
